@@ -168,5 +168,21 @@ add(TT + "remove_char_index|index|remove on &mut String with byte_index", "domin
     "the assertion just before guarantees char_index < char_count, so byte_index is the offset of an existing character",
     callee=r"reader::terminal::count_chars_bytes$", outcome="any")
 
+# ---------------------------------------------------------------- VM (C02 / C03)
+RT = "runtime::"
+A4 = "A4: writing to / flushing standard output does not fail (a closed pipe is an environment fault, not an instruction's semantics)"
+for f in ("push_val", "pop_val"):
+    add(RT + "RunState::%s|panic:debug_assert|debug_assert!(caller should have ensured stack feature is enabled)" % f, "callers-dominated",
+        "only called from the opcode-0xD handler below its feature test", root=r"runtime::RunState::stack$", callee=r"^lace::features::stack$", outcome="true")
+add(RT + "RunState::reg|panic:debug_assert|debug_assert!()", "conditional", "every call site passes an index proven < 8 (C02.R6)", on="C02.R6")
+add(RT + "RunState::reg_mut|panic:debug_assert|debug_assert!()", "conditional", "every call site passes an index proven < 8 (C02.R6)", on="C02.R6")
+add(RT + "RunState::rti|panic:todo|todo!(not yet implemented: Please open an issue and I'll get RTI i)", "reviewed",
+    "RTI is documented as unimplemented and is outside the property's claim; eval refuses it (C15.R1)")
+add(RT + "RunState::s_ext|panic:debug_assert|debug_assert!(assertion failed: bits > 0 && bits < 16)", "conditional",
+    "every call site passes one of the constant widths 5, 6, 9, 10, 11 (they are part of the decode signatures, C02.R2)", on="C02.R2")
+for k in ("", "#2", "#3", "#4"):
+    add(RT + "RunState::trap|unwrap|unwrap(flush(&stdout()))" + k, "assumption", A4)
+add(RT + "read_byte_stdin|panic:panic|panic!()", "assumption", "A2: reading standard input does not fail with an I/O error other than end of file")
+
 json.dump({"entries": E}, open(os.path.join(os.path.dirname(os.path.dirname(os.path.abspath(__file__))), "tables", "ledger.json"), "w"), indent=1)
 print(len(E), "ledger entries")
